@@ -69,3 +69,61 @@ def random_regions(rng, mode=None):
                 pos += ln
             out[n] = bytes(b)
     return out, mode
+
+
+# ---------------------------------------------------------------------------
+# small generator of valid, line-oriented PICO-8 Lua (for codec workloads; the grammar-directed
+# generator for the language-level checks lives in vf/progen.py)
+
+_NAMES = [b'x', b'y', b'i', b'player', b'enemies', b't', b'score', b'dx', b'dy', b'lives', b'_update60', b'cam']
+_CALLS = [b'print', b'spr', b'rectfill', b'add', b'flr', b'rnd', b'btn', b'sfx', b'cls']
+
+
+def simple_lua(rng, nbytes, glyphs=False, update60=None):
+    out = []
+    size = 0
+    depth = 0
+    while size < nbytes:
+        r = rng.random()
+        ind = b' ' * depth
+        if r < 0.35:
+            ln = ind + rng.choice(_NAMES[:10]) + b'=' + rng.choice((b'%d' % rng.randrange(300), rng.choice(_NAMES[:10]) + b'+1',
+                                                                   b'"s%d"' % rng.randrange(99), b'{1,2,%d}' % rng.randrange(9)))
+        elif r < 0.6:
+            ln = ind + rng.choice(_CALLS) + b'(' + rng.choice(_NAMES[:10]) + b',%d)' % rng.randrange(128)
+        elif r < 0.7 and depth < 3:
+            ln = ind + rng.choice((b'if ' + rng.choice(_NAMES[:10]) + b'>%d then' % rng.randrange(9),
+                                   b'for i=1,%d do' % rng.randrange(1, 20), b'function f%d(a,b)' % rng.randrange(50)))
+            depth += 1
+        elif r < 0.8 and depth > 0:
+            depth -= 1
+            ln = b' ' * depth + b'end'
+        elif r < 0.9:
+            c = b'-- ' + bytes(rng.choice(b'abcdefgh tuvwxyzABC012') for _ in range(rng.randint(0, 30)))
+            if glyphs:
+                c += bytes(rng.choice(range(128, 256)) for _ in range(rng.randint(0, 6)))
+            ln = ind + c
+        else:
+            ln = b''
+        out.append(ln + b'\n')
+        size += len(ln) + 1
+    while depth > 0:
+        depth -= 1
+        out.append(b' ' * depth + b'end\n')
+    code = b''.join(out)
+    if update60 == 'start':
+        code = b'function _update60()\n end\n' + code
+    elif update60 == 'middle':
+        k = len(out) // 2
+        code = b''.join(out[:k]) + b'if(_update60) x=1\n' + b''.join(out[k:])
+    elif update60 == 'end':
+        code = code + b'_update60()\n'
+    return code
+
+
+def incompressible(rng, n, prefix=b'--'):
+    """n bytes of lexable text that `:c:` cannot shrink: a comment of random non-table bytes."""
+    pool = bytes(b for b in range(33, 256) if b not in b'\n\r' and bytes([b]) not in
+                 [bytes([c]) for c in b'0123456789abcdefghijklmnopqrstuvwxyz!#%(){}[]<>+=/*:;.,~_ '])
+    body = bytes(rng.choice(pool) for _ in range(max(0, n - len(prefix))))
+    return (prefix + body)[:n]
